@@ -1,14 +1,95 @@
 //! Monitors of the E1 simulation (C01-C03, C05-C09, C13, C14).
+//!
+//! Every rule is tied to a sentence of a property statement (see DESIGN.md §5). Rules look at
+//! (a) the observation log of the step that just ended, (b) plain-data snapshots of the core and
+//! of the HQ job state taken at the step boundary (= where another party could observe them).
 
-use std::collections::BTreeMap;
+use std::collections::{BTreeMap, BTreeSet};
 
-use crate::sim::core::Sim;
+use tako::verif::{CoreSnapshot, TaskStateSnapshot, WorkerAssignmentSnapshot};
+
+use crate::sim::conv;
+use crate::sim::core::{ClientState, Sim};
 use crate::sim::run::Violation;
 use crate::sim::types::*;
+
+#[derive(Clone, Debug, PartialEq, Eq)]
+enum Auto {
+    Accepted,
+    Started { root: Wid, workers: Vec<Wid>, instance: u32 },
+    Terminal(&'static str),
+}
+
+#[derive(Default, Clone)]
+struct TaskInfo {
+    deps: Vec<Tid>,
+    n_nodes: u32,
+    known_spec: bool,
+    /// submitted when one of its (transitive) dependencies had already failed / been canceled
+    late_dependent: bool,
+}
 
 #[derive(Default)]
 pub struct Monitors {
     pub coverage: BTreeMap<String, u64>,
+    step: u32,
+    prev_core: Option<CoreSnapshot>,
+    prev_jobs: Vec<JobLite>,
+    // per incarnation state (reset on restart where noted)
+    auto: BTreeMap<Tid, Auto>,
+    ever_started_ev: BTreeSet<Tid>,
+    last_started_instance: BTreeMap<Tid, u32>,
+    max_journal_instance: BTreeMap<Tid, u32>,
+    journal_seq: Vec<Ev>,
+    live_seq: Vec<Ev>,
+    tasks: BTreeMap<Tid, TaskInfo>,
+    job_max_fails: BTreeMap<Jid, Option<u32>>,
+    job_failed: BTreeMap<Jid, u32>,
+    job_completed_events: BTreeMap<Jid, u32>,
+    finished_tasks: BTreeSet<Tid>,
+    bad_terminal: BTreeSet<Tid>, // failed / canceled / aborted
+    // C06/C08 per (worker, task)
+    credit: BTreeMap<(Wid, Tid), bool>,
+    canceled_on: BTreeSet<(Wid, Tid)>,
+    retract_confirmed: BTreeSet<(Wid, Tid)>,
+    exec_instances: BTreeMap<Tid, Vec<(u32, Wid)>>,
+    // C07
+    hq_running: BTreeMap<Tid, Wid>,
+    ref_crash: BTreeMap<Tid, u32>,
+    // C08
+    canceled_tasks: BTreeSet<Tid>,
+    // C14
+    aborted_by_limit_jobs: BTreeSet<Jid>,
+    // C03
+    exec_started: BTreeSet<Tid>,
+    // mn placement tracking
+    mn_sets: BTreeMap<Tid, Vec<Wid>>,
+    // restart
+    kept_finished: BTreeSet<Tid>,
+    restarted: bool,
+    pub history_hash: u64,
+    pub kinds_seen: BTreeSet<&'static str>,
+}
+
+fn viol(out: &mut Vec<Violation>, step: u32, prop: &str, rule: &str, detail: String) {
+    // one report per (prop, rule) per run keeps the output readable
+    if out.iter().any(|v| v.prop == prop && v.rule == rule) {
+        return;
+    }
+    out.push(Violation {
+        prop: prop.to_string(),
+        rule: rule.to_string(),
+        detail,
+        step,
+    });
+}
+
+fn job_of<'a>(jobs: &'a [JobLite], j: Jid) -> Option<&'a JobLite> {
+    jobs.iter().find(|x| x.id == j)
+}
+
+fn task_state<'a>(jobs: &'a [JobLite], t: Tid) -> Option<&'a TaskStateLite> {
+    job_of(jobs, t.0).and_then(|j| j.tasks.iter().find(|x| x.0 == t.1).map(|x| &x.1))
 }
 
 impl Monitors {
@@ -20,21 +101,1951 @@ impl Monitors {
         *self.coverage.entry(key.to_string()).or_insert(0) += n;
     }
 
-    pub fn after_step(&mut self, _sim: &Sim, new: &[(u32, Obs)], _out: &mut Vec<Violation>) {
+    fn mix(&mut self, v: u64) {
+        self.history_hash = crate::rng::mix(self.history_hash ^ v.wrapping_mul(0x9E3779B97F4A7C15));
+    }
+
+    /* --------------------------------------------------------------------------------------- */
+
+    pub fn after_step(&mut self, sim: &Sim, new: &[(u32, Obs)], out: &mut Vec<Violation>) {
+        self.step = new.first().map(|x| x.0).unwrap_or(self.step);
+        let step = self.step;
+        let core = sim.core_snapshot();
+        let jobs = sim.jobs();
+        let prev_jobs = std::mem::take(&mut self.prev_jobs);
+        let prev_core = self.prev_core.take();
+
+        let mut action: Option<Action> = None;
+        let mut journal_this_step: Vec<Ev> = Vec::new();
+        let mut lost_cb: Vec<(Wid, Vec<Tid>, Reason, BTreeSet<Tid>)> = Vec::new();
+        let mut errors_this_step: Vec<(Tid, String, Vec<Tid>)> = Vec::new();
+        let mut stops_this_step: BTreeSet<usize> = BTreeSet::new();
+        let mut cancel_delivered: Vec<(Wid, Vec<Tid>)> = Vec::new();
+        let mut srv_cancel_sent: BTreeSet<Tid> = BTreeSet::new();
+        let mut restarted_now = false;
+
         for (_, o) in new {
-            let k = match o {
-                Obs::Action(_) => "obs.action",
-                Obs::ExecStart { .. } => "obs.exec_start",
-                Obs::ExecEnd { .. } => "obs.exec_end",
-                Obs::Journal(_) => "obs.journal",
-                Obs::CbWorkerLost { .. } => "obs.worker_lost",
-                _ => "obs.other",
-            };
-            self.count(k, 1);
+            match o {
+                Obs::Action(a) => {
+                    action = Some(a.clone());
+                    let k = match a {
+                        Action::Connect(_) => 1,
+                        Action::Kill { .. } => 2,
+                        Action::ToWorker { .. } => 3,
+                        Action::ToServer { .. } => 4,
+                        Action::CloseLink { .. } => 5,
+                        Action::Sched => 6,
+                        Action::Finish { ok, .. } => 7 + *ok as u64,
+                        Action::Advance { .. } => 9,
+                        Action::ArmLaunchFail { .. } => 10,
+                        Action::Req { .. } => 11,
+                        Action::AnswerFlush => 12,
+                        Action::AnswerPrune => 13,
+                        Action::Crash { .. } => 14,
+                    };
+                    self.mix(k);
+                }
+                Obs::Restart { .. } => {
+                    restarted_now = true;
+                }
+                Obs::Journal(e) => {
+                    if !matches!(e, Ev::ServerStart) {
+                        journal_this_step.push(e.clone());
+                    }
+                    self.journal_seq.push(e.clone());
+                    self.on_journal_event(e, step, out);
+                }
+                Obs::Live(e) => {
+                    if !matches!(e, Ev::JobIdle(_) | Ev::Other) {
+                        self.live_seq.push(e.clone());
+                    }
+                }
+                Obs::CbStarted { t, workers, .. } => {
+                    if let Some(w) = workers.first() {
+                        self.hq_running.insert(*t, *w);
+                    }
+                    self.count("cb.started", 1);
+                }
+                Obs::CbFinished { t } => {
+                    self.hq_running.remove(t);
+                }
+                Obs::CbError { t, msg, cancel, consumers } => {
+                    self.hq_running.remove(t);
+                    for c in cancel {
+                        self.hq_running.remove(c);
+                    }
+                    errors_this_step.push((*t, msg.clone(), consumers.clone()));
+                }
+                Obs::CbWorkerLost { w, running, reason } => {
+                    // what was reported running on `w` at this very moment
+                    let expected: BTreeSet<Tid> = self
+                        .hq_running
+                        .iter()
+                        .filter(|(_, root)| **root == *w)
+                        .map(|(t, _)| *t)
+                        .collect();
+                    lost_cb.push((*w, running.clone(), *reason, expected));
+                }
+                Obs::ExecStart { exec: _, w, t, instance, .. } => {
+                    self.count("exec.start", 1);
+                    self.mix(100 + *w as u64);
+                    self.on_exec_start(*w, *t, *instance, step, out);
+                }
+                Obs::ExecStop { exec, timeout } => {
+                    stops_this_step.insert(*exec);
+                    if *timeout {
+                        self.count("exec.timeout", 1);
+                    } else {
+                        self.count("exec.cancel_signal", 1);
+                    }
+                }
+                Obs::ExecEnd { .. } => {}
+                Obs::LaunchFail { .. } => self.count("launch_fail", 1),
+                Obs::SrvSent { w: _, m } => match m {
+                    ToWorkerLite::Cancel(ids) => {
+                        for t in ids {
+                            srv_cancel_sent.insert(*t);
+                        }
+                    }
+                    ToWorkerLite::Retract(ids) => self.count("retract.sent", ids.len() as u64),
+                    ToWorkerLite::Compute(ts) => {
+                        self.count("compute.sent", ts.len() as u64);
+                        self.count(
+                            "prefill.sent",
+                            ts.iter().filter(|t| t.2.is_none()).count() as u64,
+                        );
+                    }
+                    _ => {}
+                },
+                Obs::WorkerGot { w, m } => match m {
+                    ToWorkerLite::Compute(ts) => {
+                        for (t, _, _, _) in ts {
+                            self.credit.insert((*w, *t), true);
+                            self.retract_confirmed.remove(&(*w, *t));
+                        }
+                    }
+                    ToWorkerLite::Cancel(ids) => {
+                        for t in ids {
+                            self.credit.insert((*w, *t), false);
+                            self.canceled_on.insert((*w, *t));
+                        }
+                        cancel_delivered.push((*w, ids.clone()));
+                    }
+                    _ => {}
+                },
+                Obs::WorkerSent { w, m } => {
+                    if let FromWorkerLite::RetractResponse(ids) = m {
+                        self.count("retract.confirmed", ids.len() as u64);
+                        for t in ids {
+                            self.credit.insert((*w, *t), false);
+                            self.retract_confirmed.insert((*w, *t));
+                        }
+                    }
+                    if let FromWorkerLite::Updates(ups) = m {
+                        for u in ups {
+                            match u {
+                                UpdateLite::Reject(..) => self.count("reject", 1),
+                                UpdateLite::Enable(..) => self.count("enable_request", 1),
+                                UpdateLite::RunningPrefilled(..) => {
+                                    self.count("running_prefilled", 1)
+                                }
+                                _ => {}
+                            }
+                        }
+                    }
+                }
+                Obs::SrvGot { m, .. } => {
+                    // coverage: (core task state, message kind) pairs
+                    if let (Some(pc), FromWorkerLite::Updates(ups)) = (&prev_core, m) {
+                        for u in ups {
+                            let (t, kind) = match u {
+                                UpdateLite::Finished(t) => (*t, "finished"),
+                                UpdateLite::Failed(t, _) => (*t, "failed"),
+                                UpdateLite::Running(t, _) => (*t, "running"),
+                                UpdateLite::RunningPrefilled(t, _) => (*t, "running_prefilled"),
+                                UpdateLite::Reject(t, _) => (*t, "reject"),
+                                UpdateLite::Enable(..) => continue,
+                            };
+                            let st = pc
+                                .tasks
+                                .iter()
+                                .find(|x| conv::tid(x.id) == t)
+                                .map(|x| state_name(&x.state))
+                                .unwrap_or("gone");
+                            self.count(&format!("pair.{st}.{kind}"), 1);
+                        }
+                    }
+                    if let (Some(pc), FromWorkerLite::RetractResponse(ids)) = (&prev_core, m) {
+                        for t in ids {
+                            let st = pc
+                                .tasks
+                                .iter()
+                                .find(|x| conv::tid(x.id) == *t)
+                                .map(|x| state_name(&x.state))
+                                .unwrap_or("gone");
+                            self.count(&format!("pair.{st}.retract_response"), 1);
+                        }
+                    }
+                }
+                Obs::Resp { c: _, r } => match r {
+                    RespLite::SubmitRejected(_) => self.count("submit.rejected", 1),
+                    RespLite::SubmitOk { .. } => self.count("submit.ok", 1),
+                    _ => {}
+                },
+                _ => {}
+            }
         }
+
+        if restarted_now {
+            self.on_restart(sim, step, out);
+            self.prev_core = Some(core);
+            self.prev_jobs = jobs;
+            return;
+        }
+
+        // ---- C06-X1: one live execution per task on connected workers
+        {
+            let sh = sim.shared.borrow();
+            let mut open: BTreeMap<Tid, Vec<Wid>> = BTreeMap::new();
+            for e in sh.execs.iter().filter(|e| e.open) {
+                if sim.workers.get(&e.w).map(|w| !w.stopped).unwrap_or(false) {
+                    open.entry(e.t).or_default().push(e.w);
+                }
+            }
+            for (t, ws) in open {
+                if ws.len() > 1 {
+                    viol(
+                        out,
+                        step,
+                        "C06",
+                        "X1-two-live-executions",
+                        format!("task {t:?} executes on connected workers {ws:?}"),
+                    );
+                }
+            }
+        }
+
+        // ---- C01-R5: time limit (virtual time)
+        {
+            let sh = sim.shared.borrow();
+            for (i, e) in sh.execs.iter().enumerate() {
+                if !e.open || e.incarnation != sh.incarnation {
+                    continue;
+                }
+                if let Some(l) = e.time_limit_s {
+                    if sh.vnow_s >= e.start_s + l && e.stopped.is_none() {
+                        viol(
+                            out,
+                            step,
+                            "C01",
+                            "R5-time-limit-not-enforced",
+                            format!(
+                                "exec {i} of {:?} started at {}s with limit {}s still runs at {}s without a stop signal",
+                                e.t, e.start_s, l, sh.vnow_s
+                            ),
+                        );
+                    }
+                }
+            }
+        }
+
+        // ---- C08-K2 / C14-M3: open executions get Cancel when the worker processes CancelTasks
+        {
+            let sh = sim.shared.borrow();
+            for (w, ids) in &cancel_delivered {
+                for (i, e) in sh.execs.iter().enumerate() {
+                    if e.w == *w && ids.contains(&e.t) && e.start_step < step {
+                        // was it open when the message arrived? it is if it ended in this step
+                        // by cancel or is still open
+                        let ended_now_by_cancel = stops_this_step.contains(&i);
+                        if e.open && !ended_now_by_cancel {
+                            let prop = if self.canceled_tasks.contains(&e.t) {
+                                "C08"
+                            } else {
+                                "C14"
+                            };
+                            viol(
+                                out,
+                                step,
+                                prop,
+                                "K2-running-task-not-stopped",
+                                format!("worker {w} processed CancelTasks for {:?} but execution {i} keeps running", e.t),
+                            );
+                        }
+                        if ended_now_by_cancel {
+                            self.count("cancel.hit_running_exec", 1);
+                        }
+                    }
+                }
+            }
+        }
+
+        // ---- C07: worker loss
+        for (w, running, reason, expected) in &lost_cb {
+            self.check_worker_loss(
+                *w,
+                running,
+                *reason,
+                expected,
+                &errors_this_step,
+                prev_core.as_ref(),
+                &core,
+                &jobs,
+                step,
+                out,
+            );
+        }
+
+        // ---- C07-L2: crash counters equal the reference for every live task
+        for t in &core.tasks {
+            let id = conv::tid(t.id);
+            let r = self.ref_crash.get(&id).copied().unwrap_or(0);
+            if t.crash_counter != r {
+                viol(
+                    out,
+                    step,
+                    "C07",
+                    "L2-crash-counter",
+                    format!(
+                        "task {id:?}: core crash counter {} but {} failure-type losses while running were observed",
+                        t.crash_counter, r
+                    ),
+                );
+            }
+        }
+
+        // ---- C02-S1: job task sets agree with the scheduler's
+        self.check_task_sets(&core, &jobs, step, out);
+
+        // ---- C01-R6 / C13-B1: user visible states
+        self.check_job_bookkeeping(&jobs, step, out);
+
+        // ---- C13-B2: completion
+        self.check_completion(&jobs, step, out);
+
+        // ---- C13-B3: submits (request processed in this step)
+        if let Some(Action::Req {
+            req: ClientReq::Submit { job, max_fails, spec, .. },
+            ..
+        }) = &action
+        {
+            self.check_submit(
+                *job,
+                *max_fails,
+                spec,
+                &journal_this_step,
+                &prev_jobs,
+                &jobs,
+                prev_core.as_ref(),
+                &core,
+                step,
+                out,
+            );
+        }
+
+        // ---- C08: cancel requests processed in this step
+        if let Some(Action::Req {
+            req: ClientReq::Cancel { job },
+            ..
+        }) = &action
+        {
+            self.check_cancel(
+                *job,
+                &journal_this_step,
+                &prev_jobs,
+                &jobs,
+                prev_core.as_ref(),
+                &core,
+                step,
+                out,
+            );
+        }
+
+        // ---- C14: max-fails
+        self.check_max_fails(&journal_this_step, &prev_jobs, &jobs, prev_core.as_ref(), &srv_cancel_sent, step, out);
+
+        // ---- C05: placements
+        self.check_placements(sim, &action, prev_core.as_ref(), &core, step, out);
+
+        self.prev_core = Some(core);
+        self.prev_jobs = jobs;
+    }
+
+    /* ------------------------------ journal automaton (C01, C03-D3, C14) ------------------- */
+
+    fn on_journal_event(&mut self, e: &Ev, step: u32, out: &mut Vec<Violation>) {
+        let terminal = |m: &mut Monitors, t: Tid, kind: &'static str, out: &mut Vec<Violation>| {
+            match m.auto.get(&t) {
+                Some(Auto::Terminal(k)) => viol(
+                    out,
+                    step,
+                    "C01",
+                    "R1-second-terminal-outcome",
+                    format!("task {t:?} already {k}, now reported {kind}"),
+                ),
+                _ => {}
+            }
+            m.auto.insert(t, Auto::Terminal(kind));
+            m.count(&format!("terminal.{kind}"), 1);
+            m.kinds_seen.insert(kind);
+            if kind == "finished" {
+                m.finished_tasks.insert(t);
+            } else {
+                m.bad_terminal.insert(t);
+            }
+        };
+        match e {
+            Ev::TaskStarted { t, instance, workers, .. } => {
+                if let Some(Auto::Terminal(k)) = self.auto.get(t) {
+                    viol(
+                        out,
+                        step,
+                        "C01",
+                        "R2-event-after-terminal",
+                        format!("task {t:?} is {k} but a start was reported afterwards"),
+                    );
+                    if self.canceled_tasks.contains(t) {
+                        viol(out, step, "C08", "K1-start-after-cancel", format!("task {t:?} reported started after its job was canceled"));
+                    }
+                } else {
+                    // C06-X3 on reported starts
+                    if let Some(prev) = self.last_started_instance.get(t) {
+                        if *instance <= *prev {
+                            viol(
+                                out,
+                                step,
+                                "C06",
+                                "X3-instance-not-increasing-reported",
+                                format!("task {t:?} reported started with instance {instance} after instance {prev}"),
+                            );
+                        }
+                    }
+                    if let Some(prev) = self.max_journal_instance.get(t) {
+                        if self.restarted && *instance <= *prev && !self.last_started_instance.contains_key(t) {
+                            viol(
+                                out,
+                                step,
+                                "C06",
+                                "X3-instance-not-increasing-across-restart",
+                                format!("task {t:?} started with instance {instance} after a restart; the journal already held instance {prev}"),
+                            );
+                        }
+                    }
+                    self.last_started_instance.insert(*t, *instance);
+                    self.ever_started_ev.insert(*t);
+                    self.auto.insert(
+                        *t,
+                        Auto::Started {
+                            root: workers.first().copied().unwrap_or(0),
+                            workers: workers.clone(),
+                            instance: *instance,
+                        },
+                    );
+                }
+            }
+            Ev::TaskFinished(t) => {
+                match self.auto.get(t) {
+                    Some(Auto::Started { .. }) => {}
+                    Some(Auto::Terminal(_)) => {}
+                    _ => viol(
+                        out,
+                        step,
+                        "C01",
+                        "R3-finish-without-start",
+                        format!("task {t:?} reported finished while no start is in effect"),
+                    ),
+                }
+                if self.canceled_tasks.contains(t) {
+                    viol(out, step, "C08", "K1-finish-after-cancel", format!("task {t:?} reported finished after its job was canceled"));
+                }
+                terminal(self, *t, "finished", out);
+            }
+            Ev::TaskFailed { t, .. } => {
+                if self.canceled_tasks.contains(t) {
+                    viol(out, step, "C08", "K1-fail-after-cancel", format!("task {t:?} reported failed after its job was canceled"));
+                }
+                terminal(self, *t, "failed", out);
+                *self.job_failed.entry(t.0).or_insert(0) += 1;
+            }
+            Ev::TasksCanceled(ts) => {
+                for t in ts {
+                    terminal(self, *t, "canceled", out);
+                    self.canceled_tasks.insert(*t);
+                    self.hq_running.remove(t);
+                }
+            }
+            Ev::TasksAborted(ts) => {
+                for t in ts {
+                    terminal(self, *t, "aborted", out);
+                    self.hq_running.remove(t);
+                }
+            }
+            Ev::WorkerLost(w, _) => {
+                // a start on a lost root worker is undone
+                let undone: Vec<Tid> = self
+                    .auto
+                    .iter()
+                    .filter(|(_, a)| matches!(a, Auto::Started { root, .. } if root == w))
+                    .map(|(t, _)| *t)
+                    .collect();
+                for t in undone {
+                    self.auto.insert(t, Auto::Accepted);
+                }
+            }
+            Ev::JobCompleted(j) => {
+                *self.job_completed_events.entry(*j).or_insert(0) += 1;
+            }
+            _ => {}
+        }
+    }
+
+    /* ------------------------------ executions (C03-D1, C06-X2/X3, C08-K3) ------------------ */
+
+    fn on_exec_start(&mut self, w: Wid, t: Tid, instance: u32, step: u32, out: &mut Vec<Violation>) {
+        self.exec_started.insert(t);
+        // C08-K3 / C14-M4
+        if self.canceled_on.contains(&(w, t)) {
+            let prop = if self.canceled_tasks.contains(&t) { "C08" } else { "C14" };
+            viol(
+                out,
+                step,
+                prop,
+                "K3-start-after-cancel-on-worker",
+                format!("worker {w} started {t:?} after it had processed CancelTasks for it"),
+            );
+        } else if self.retract_confirmed.contains(&(w, t)) {
+            viol(
+                out,
+                step,
+                "C06",
+                "X2-start-after-retract-confirmed",
+                format!("worker {w} started {t:?} after confirming its retraction"),
+            );
+        } else if self.credit.get(&(w, t)).copied() != Some(true) {
+            viol(
+                out,
+                step,
+                "C06",
+                "X2-start-without-compute",
+                format!("worker {w} started {t:?} without a pending ComputeTasks for it"),
+            );
+        }
+        self.credit.insert((w, t), false);
+        // C06-X3 on ground truth
+        let last = self.exec_instances.get(&t).and_then(|v| v.last().copied());
+        if let Some((prev, pw)) = last {
+            if instance <= prev {
+                viol(
+                    out,
+                    step,
+                    "C06",
+                    "X3-instance-not-increasing",
+                    format!("task {t:?} executed with instance {instance} on worker {w} after instance {prev} on worker {pw}"),
+                );
+            }
+            self.count("reexecution", 1);
+        }
+        self.exec_instances.entry(t).or_default().push((instance, w));
+        if let Some(prev) = self.max_journal_instance.get(&t) {
+            if self.restarted && instance <= *prev {
+                viol(
+                    out,
+                    step,
+                    "C06",
+                    "X3-instance-not-increasing-across-restart",
+                    format!("task {t:?} executed with instance {instance} after a restart; the journal already held instance {prev}"),
+                );
+            }
+        }
+        // C10-J4 / C03-D4: recorded-finished tasks are not run again
+        if self.kept_finished.contains(&t) {
+            viol(
+                out,
+                step,
+                "C10",
+                "J4-finished-task-rerun",
+                format!("task {t:?} was recorded finished before the restart but executed again"),
+            );
+        }
+        // C03-D1 on ground truth
+        if let Some(info) = self.tasks.get(&t) {
+            for d in &info.deps {
+                if !self.finished_tasks.contains(d) {
+                    if info.late_dependent {
+                        viol(
+                            out,
+                            step,
+                            "C03",
+                            "D2-late-dependent-of-failed-task-runs",
+                            format!("task {t:?} was submitted after its dependency {d:?} had failed/been canceled, and it was started"),
+                        );
+                    } else {
+                        viol(
+                            out,
+                            step,
+                            "C03",
+                            "D1-started-before-dependency-finished",
+                            format!("task {t:?} started on worker {w} but its dependency {d:?} has not finished"),
+                        );
+                    }
+                }
+            }
+            if !info.deps.is_empty() {
+                self.count("dep.checked_start", 1);
+            }
+        }
+    }
+
+    /* ------------------------------ C07 ---------------------------------------------------- */
+
+    #[allow(clippy::too_many_arguments)]
+    fn check_worker_loss(
+        &mut self,
+        w: Wid,
+        running: &[Tid],
+        reason: Reason,
+        expected: &BTreeSet<Tid>,
+        errors: &[(Tid, String, Vec<Tid>)],
+        prev_core: Option<&CoreSnapshot>,
+        core: &CoreSnapshot,
+        jobs: &[JobLite],
+        step: u32,
+        out: &mut Vec<Violation>,
+    ) {
+        let Some(pc) = prev_core else { return };
+        let listed: BTreeSet<Tid> = running.iter().copied().collect();
+        // lenient: a multi-node task whose root is `w` but whose start was not reported yet
+        let mn_unreported: BTreeSet<Tid> = pc
+            .tasks
+            .iter()
+            .filter(|t| matches!(&t.state, TaskStateSnapshot::RunningMultiNode(ws) if ws.first().map(|x| x.as_num()) == Some(w)))
+            .map(|t| conv::tid(t.id))
+            .filter(|t| !expected.contains(t))
+            .collect();
+        for t in &listed {
+            if !expected.contains(t) && !mn_unreported.contains(t) {
+                viol(
+                    out,
+                    step,
+                    "C07",
+                    "L1-not-running-task-treated-as-running",
+                    format!("loss of worker {w}: {t:?} handled as running there but it was not reported running on it"),
+                );
+            }
+        }
+        for t in expected {
+            if !listed.contains(t) {
+                viol(
+                    out,
+                    step,
+                    "C07",
+                    "L1-running-task-missed",
+                    format!("loss of worker {w}: {t:?} was reported running there but is not handled"),
+                );
+            }
+        }
+        self.count("loss.total", 1);
+        if !listed.is_empty() {
+            self.count("loss.with_running", 1);
+        }
+        self.count(&format!("loss.reason.{reason:?}"), 1);
+        let failed_now: BTreeMap<Tid, &String> = errors.iter().map(|(t, m, _)| (*t, m)).collect();
+        for t in &listed {
+            self.hq_running.remove(t);
+            let snap = pc.tasks.iter().find(|x| conv::tid(x.id) == *t);
+            let Some(snap) = snap else { continue };
+            let limit = snap.crash_limit;
+            let mut should_fail = false;
+            match limit {
+                tako::gateway::CrashLimit::NeverRestart => {
+                    should_fail = true;
+                }
+                tako::gateway::CrashLimit::MaxCrashes(n) => {
+                    if reason.is_failure() {
+                        let r = self.ref_crash.entry(*t).or_insert(0);
+                        *r += 1;
+                        if *r >= n as u32 {
+                            should_fail = true;
+                        }
+                    }
+                }
+                tako::gateway::CrashLimit::Unlimited => {
+                    if reason.is_failure() {
+                        *self.ref_crash.entry(*t).or_insert(0) += 1;
+                    }
+                }
+            }
+            self.count(
+                &format!(
+                    "loss.cell.{}.{}",
+                    match limit {
+                        tako::gateway::CrashLimit::NeverRestart => "never",
+                        tako::gateway::CrashLimit::MaxCrashes(_) => "max",
+                        tako::gateway::CrashLimit::Unlimited => "unlimited",
+                    },
+                    if reason.is_failure() { "failure" } else { "graceful" }
+                ),
+                1,
+            );
+            // a sibling failure may have aborted the task through max-fails in the same step
+            let aborted_now = matches!(task_state(jobs, *t), Some(TaskStateLite::Aborted));
+            match (should_fail, failed_now.get(t)) {
+                (true, None) if !aborted_now => viol(
+                    out,
+                    step,
+                    "C07",
+                    "L3-task-should-have-failed",
+                    format!("loss of worker {w} ({reason:?}): {t:?} with limit {limit:?} reached its limit but was not failed"),
+                ),
+                (true, Some(msg)) => {
+                    if msg.trim().is_empty() {
+                        viol(out, step, "C07", "L3-no-explanation", format!("{t:?} failed after worker loss without an explanatory error"));
+                    }
+                    self.count("loss.task_failed_by_limit", 1);
+                }
+                (false, Some(_)) => viol(
+                    out,
+                    step,
+                    "C07",
+                    "L3-task-failed-below-limit",
+                    format!("loss of worker {w} ({reason:?}): {t:?} with limit {limit:?} failed although its limit is not reached (count {:?})", self.ref_crash.get(t)),
+                ),
+                (false, None) => {
+                    // must be runnable again
+                    if !aborted_now {
+                        let now = core.tasks.iter().find(|x| conv::tid(x.id) == *t);
+                        match now.map(|x| &x.state) {
+                            Some(TaskStateSnapshot::Waiting { unfinished_deps: 0 }) => {
+                                self.count("loss.task_requeued", 1);
+                            }
+                            other => viol(
+                                out,
+                                step,
+                                "C07",
+                                "L3-task-not-runnable-again",
+                                format!("loss of worker {w}: {t:?} should be ready again but is {other:?}"),
+                            ),
+                        }
+                    }
+                }
+                _ => {}
+            }
+        }
+        // L4: tasks only queued on the worker are rescheduled without penalty
+        for t in &pc.tasks {
+            let id = conv::tid(t.id);
+            if listed.contains(&id) {
+                continue;
+            }
+            let queued_here = match &t.state {
+                TaskStateSnapshot::Assigned { worker_id, .. } | TaskStateSnapshot::Prefilled { worker_id } => worker_id.as_num() == w,
+                TaskStateSnapshot::Running { worker_id, .. } => worker_id.as_num() == w,
+                _ => false,
+            };
+            if !queued_here {
+                continue;
+            }
+            self.count("loss.queued_task", 1);
+            if failed_now.contains_key(&id) {
+                viol(out, step, "C07", "L4-queued-task-failed", format!("loss of worker {w}: {id:?} was only queued there but was failed"));
+            }
+            let aborted_now = matches!(task_state(jobs, id), Some(TaskStateLite::Aborted));
+            let now = core.tasks.iter().find(|x| conv::tid(x.id) == id);
+            match now.map(|x| &x.state) {
+                Some(TaskStateSnapshot::Waiting { unfinished_deps: 0 }) => {}
+                None if aborted_now => {}
+                other => viol(
+                    out,
+                    step,
+                    "C07",
+                    "L4-queued-task-not-rescheduled",
+                    format!("loss of worker {w}: {id:?} was queued there and should be ready again but is {other:?}"),
+                ),
+            }
+        }
+    }
+
+    /* ------------------------------ C02-S1 -------------------------------------------------- */
+
+    fn check_task_sets(&mut self, core: &CoreSnapshot, jobs: &[JobLite], step: u32, out: &mut Vec<Violation>) {
+        let mut core_by_job: BTreeMap<Jid, BTreeSet<u32>> = BTreeMap::new();
+        for t in &core.tasks {
+            let id = conv::tid(t.id);
+            core_by_job.entry(id.0).or_default().insert(id.1);
+        }
+        for j in jobs {
+            let shown: BTreeSet<u32> = j
+                .tasks
+                .iter()
+                .filter(|(_, s)| !s.is_terminal())
+                .map(|(id, _)| *id)
+                .collect();
+            let known = core_by_job.remove(&j.id).unwrap_or_default();
+            if shown != known {
+                let phantom: Vec<&u32> = shown.difference(&known).collect();
+                let orphan: Vec<&u32> = known.difference(&shown).collect();
+                viol(
+                    out,
+                    step,
+                    "C02",
+                    "S1-task-sets-disagree",
+                    format!(
+                        "job {}: shown unfinished but unknown to the scheduler {phantom:?}; known to the scheduler but not shown unfinished {orphan:?}",
+                        j.id
+                    ),
+                );
+            }
+        }
+        for (j, ids) in core_by_job {
+            if !ids.is_empty() {
+                viol(
+                    out,
+                    step,
+                    "C02",
+                    "S1-orphan-tasks",
+                    format!("scheduler holds tasks {ids:?} of job {j} which the job layer does not have"),
+                );
+            }
+        }
+    }
+
+    /* ------------------------------ C01-R6, C13-B1 ------------------------------------------ */
+
+    fn check_job_bookkeeping(&mut self, jobs: &[JobLite], step: u32, out: &mut Vec<Violation>) {
+        for j in jobs {
+            let mut c = CountersLite::default();
+            for (id, s) in &j.tasks {
+                match s {
+                    TaskStateLite::Waiting => {}
+                    TaskStateLite::Running { .. } => c.running += 1,
+                    TaskStateLite::Finished => c.finished += 1,
+                    TaskStateLite::Failed { .. } => c.failed += 1,
+                    TaskStateLite::Canceled => c.canceled += 1,
+                    TaskStateLite::Aborted => c.aborted += 1,
+                }
+                // C01-R6: user visible state equals the automaton of announced events
+                let t = (j.id, *id);
+                let expected = match self.auto.get(&t) {
+                    None | Some(Auto::Accepted) => "waiting",
+                    Some(Auto::Started { .. }) => "running",
+                    Some(Auto::Terminal(k)) => k,
+                };
+                // after a restart the pre-restart history is not part of the automaton
+                if !self.restarted && s.kind() != expected {
+                    viol(
+                        out,
+                        step,
+                        "C01",
+                        "R6-shown-state-differs-from-announced",
+                        format!("task {t:?} is shown as {} but the announced events imply {expected}", s.kind()),
+                    );
+                }
+            }
+            if c != j.counters || j.n_tasks as usize != j.tasks.len() {
+                viol(
+                    out,
+                    step,
+                    "C13",
+                    "B1-counters",
+                    format!("job {}: counters {:?} n_tasks {} but task states give {:?} of {}", j.id, j.counters, j.n_tasks, c, j.tasks.len()),
+                );
+            }
+        }
+    }
+
+    /* ------------------------------ C13-B2 -------------------------------------------------- */
+
+    fn check_completion(&mut self, jobs: &[JobLite], step: u32, out: &mut Vec<Violation>) {
+        for j in jobs {
+            let all_terminal = j.tasks.iter().all(|(_, s)| s.is_terminal());
+            let should = !j.is_open && all_terminal;
+            let n = self.job_completed_events.get(&j.id).copied().unwrap_or(0);
+            if n > 1 {
+                viol(out, step, "C13", "B2-completed-twice", format!("job {} reported completed {n} times", j.id));
+            }
+            if self.restarted {
+                continue;
+            }
+            if should && n == 0 {
+                viol(
+                    out,
+                    step,
+                    "C13",
+                    "B2-completion-not-reported",
+                    format!("job {} is closed and all its {} tasks are terminal but no completion was reported", j.id, j.tasks.len()),
+                );
+            }
+            if !should && n > 0 {
+                viol(
+                    out,
+                    step,
+                    "C13",
+                    "B2-completed-early",
+                    format!("job {} reported completed while open={} and not all tasks terminal", j.id, j.is_open),
+                );
+            }
+            if should {
+                self.count("job.completed_checked", 1);
+            }
+        }
+    }
+
+    /* ------------------------------ C13-B3 -------------------------------------------------- */
+
+    #[allow(clippy::too_many_arguments)]
+    fn check_submit(
+        &mut self,
+        job: Option<Jid>,
+        max_fails: Option<u32>,
+        spec: &SubmitSpec,
+        journal: &[Ev],
+        prev_jobs: &[JobLite],
+        jobs: &[JobLite],
+        prev_core: Option<&CoreSnapshot>,
+        core: &CoreSnapshot,
+        step: u32,
+        out: &mut Vec<Violation>,
+    ) {
+        let accepted_job: Option<Jid> = journal.iter().find_map(|e| match e {
+            Ev::Submit { job, .. } => Some(*job),
+            _ => None,
+        });
+        let ids_of = |jobs: &[JobLite], j: Jid| -> BTreeSet<u32> {
+            job_of(jobs, j).map(|x| x.tasks.iter().map(|t| t.0).collect()).unwrap_or_default()
+        };
+        // is the submit valid by the documented rules?
+        let target = job.and_then(|j| job_of(prev_jobs, j));
+        let existing: BTreeSet<u32> = target.map(|t| t.tasks.iter().map(|x| x.0).collect()).unwrap_or_default();
+        let mut invalid: Option<&'static str> = None;
+        if let Some(j) = job {
+            match job_of(prev_jobs, j) {
+                None => invalid = Some("unknown job"),
+                Some(t) if !t.is_open => invalid = Some("closed job"),
+                _ => {}
+            }
+        }
+        let expected_new: Option<BTreeSet<u32>> = match spec {
+            SubmitSpec::Array { ids, entries, .. } => match ids {
+                Some(v) => {
+                    let s: BTreeSet<u32> = v.iter().copied().collect();
+                    if s.iter().any(|i| existing.contains(i)) {
+                        invalid = invalid.or(Some("duplicate id"));
+                    }
+                    Some(s)
+                }
+                None => {
+                    let start = existing.iter().max().map(|m| m + 1).unwrap_or(0);
+                    let n = entries.unwrap_or(1);
+                    Some((start..start + n).collect())
+                }
+            },
+            SubmitSpec::Graph { tasks, .. } => {
+                let mut s = BTreeSet::new();
+                let mut seen = BTreeSet::new();
+                for t in tasks {
+                    if existing.contains(&t.id) {
+                        invalid = invalid.or(Some("duplicate id"));
+                    }
+                    if !s.insert(t.id) {
+                        invalid = invalid.or(Some("non unique id"));
+                    }
+                    seen.insert(t.id);
+                    for d in &t.deps {
+                        if *d == t.id || (!seen.contains(d) && !existing.contains(d)) {
+                            invalid = invalid.or(Some("invalid dependency"));
+                        }
+                    }
+                }
+                Some(s)
+            }
+        };
+        match (invalid, accepted_job) {
+            (Some(why), Some(j)) => viol(
+                out,
+                step,
+                "C13",
+                "B3-invalid-submit-accepted",
+                format!("submit ({why}) was accepted into job {j}"),
+            ),
+            (Some(_), None) => {
+                self.count("submit.invalid_rejected", 1);
+                // rejected without any effect
+                if !journal.is_empty() {
+                    viol(out, step, "C13", "B3-rejected-submit-has-effect", format!("a rejected submit emitted events {journal:?}"));
+                }
+                if prev_jobs != jobs {
+                    viol(out, step, "C13", "B3-rejected-submit-has-effect", "a rejected submit changed the job state".to_string());
+                }
+                if let Some(pc) = prev_core {
+                    if pc.tasks.len() != core.tasks.len() {
+                        viol(out, step, "C13", "B3-rejected-submit-has-effect", "a rejected submit changed the scheduler's task set".to_string());
+                    }
+                }
+            }
+            (None, None) => viol(
+                out,
+                step,
+                "C13",
+                "B3-valid-submit-rejected",
+                format!("a valid submit (job {job:?}) was not accepted"),
+            ),
+            (None, Some(j)) => {
+                self.count("submit.accepted", 1);
+                if job.is_some() {
+                    self.count("submit.into_open_job", 1);
+                }
+                if let Some(want) = job {
+                    if want != j {
+                        viol(out, step, "C13", "B3-wrong-job", format!("submit into job {want} landed in job {j}"));
+                    }
+                } else {
+                    self.job_max_fails.insert(j, max_fails);
+                }
+                let before = ids_of(prev_jobs, j);
+                let after = ids_of(jobs, j);
+                let new: BTreeSet<u32> = after.difference(&before).copied().collect();
+                let expected = expected_new.unwrap();
+                if !before.is_subset(&after) || new != expected {
+                    viol(
+                        out,
+                        step,
+                        "C13",
+                        "B3-task-ids",
+                        format!("submit into job {j}: expected new task ids {expected:?}, job gained {new:?} (had {} tasks)", before.len()),
+                    );
+                }
+                // the same id set reaches the scheduler
+                let core_new: BTreeSet<u32> = core
+                    .tasks
+                    .iter()
+                    .map(|t| conv::tid(t.id))
+                    .filter(|t| t.0 == j)
+                    .filter(|t| {
+                        prev_core
+                            .map(|pc| !pc.tasks.iter().any(|x| conv::tid(x.id) == *t))
+                            .unwrap_or(true)
+                    })
+                    .map(|t| t.1)
+                    .collect();
+                if core_new != expected {
+                    viol(
+                        out,
+                        step,
+                        "C02",
+                        "S1-submit-task-sets-disagree",
+                        format!("submit into job {j}: job gained {new:?} but the scheduler gained {core_new:?}"),
+                    );
+                }
+                // register specs
+                match spec {
+                    SubmitSpec::Array { req, .. } => {
+                        for id in &new {
+                            self.tasks.insert(
+                                (j, *id),
+                                TaskInfo {
+                                    deps: vec![],
+                                    n_nodes: req.variants[0].n_nodes,
+                                    known_spec: true,
+                                    late_dependent: false,
+                                },
+                            );
+                        }
+                    }
+                    SubmitSpec::Graph { reqs, tasks } => {
+                        for t in tasks {
+                            self.tasks.insert(
+                                (j, t.id),
+                                TaskInfo {
+                                    deps: t.deps.iter().map(|d| (j, *d)).collect(),
+                                    n_nodes: reqs[t.req].variants[0].n_nodes,
+                                    known_spec: true,
+                                    late_dependent: false,
+                                },
+                            );
+                            if self.has_bad_ancestor((j, t.id)) {
+                                self.tasks.get_mut(&(j, t.id)).unwrap().late_dependent = true;
+                                self.count("dep.late_dependents", 1);
+                            }
+                            if !t.deps.is_empty() {
+                                self.count("dep.tasks_with_deps", 1);
+                            }
+                        }
+                    }
+                }
+            }
+        }
+    }
+
+    /* ------------------------------ C08 ------------------------------------------------------ */
+
+    #[allow(clippy::too_many_arguments)]
+    fn check_cancel(
+        &mut self,
+        job: Jid,
+        journal: &[Ev],
+        prev_jobs: &[JobLite],
+        jobs: &[JobLite],
+        prev_core: Option<&CoreSnapshot>,
+        core: &CoreSnapshot,
+        step: u32,
+        out: &mut Vec<Violation>,
+    ) {
+        let Some(pj) = job_of(prev_jobs, job) else {
+            // unknown job: nothing may happen
+            if !journal.is_empty() {
+                viol(out, step, "C08", "K5-cancel-of-unknown-job-has-effect", format!("events {journal:?}"));
+            }
+            return;
+        };
+        let nonterminal: BTreeSet<Tid> = pj
+            .tasks
+            .iter()
+            .filter(|(_, s)| !s.is_terminal())
+            .map(|(id, _)| (job, *id))
+            .collect();
+        let recorded: Vec<Tid> = journal
+            .iter()
+            .filter_map(|e| match e {
+                Ev::TasksCanceled(ts) => Some(ts.clone()),
+                _ => None,
+            })
+            .flatten()
+            .collect();
+        let recorded_set: BTreeSet<Tid> = recorded.iter().copied().collect();
+        if nonterminal.is_empty() {
+            // K5: repeating the cancel changes nothing
+            self.count("cancel.noop", 1);
+            if !journal.is_empty() {
+                viol(out, step, "C08", "K5-repeated-cancel-has-effect", format!("cancel of job {job} without unfinished tasks emitted {journal:?}"));
+            }
+            if job_of(jobs, job) != Some(pj) {
+                viol(out, step, "C08", "K5-repeated-cancel-has-effect", format!("cancel of job {job} without unfinished tasks changed the job"));
+            }
+            if let Some(pc) = prev_core {
+                if format!("{:?}", pc.tasks) != format!("{:?}", core.tasks) || format!("{:?}", pc.workers) != format!("{:?}", core.workers) {
+                    viol(out, step, "C08", "K5-repeated-cancel-has-effect", format!("cancel of job {job} without unfinished tasks changed the scheduler state"));
+                }
+            }
+            return;
+        }
+        self.count("cancel.effective", 1);
+        self.count("cancel.tasks", nonterminal.len() as u64);
+        if recorded.len() != recorded_set.len() || recorded_set != nonterminal {
+            viol(
+                out,
+                step,
+                "C08",
+                "K1-canceled-set",
+                format!("cancel of job {job}: unfinished tasks were {nonterminal:?} but reported canceled {recorded:?}"),
+            );
+        }
+        // other jobs untouched in this step
+        for e in journal {
+            let other = match e {
+                Ev::JobCancel(j) | Ev::JobCompleted(j) => *j != job,
+                Ev::TasksCanceled(ts) => ts.iter().any(|t| t.0 != job),
+                Ev::TasksAborted(_) | Ev::TaskFailed { .. } | Ev::TaskFinished(_) | Ev::TaskStarted { .. } => true,
+                _ => false,
+            };
+            if other {
+                viol(out, step, "C08", "K1-other-job-affected", format!("cancel of job {job} emitted {e:?}"));
+            }
+        }
+        for j in prev_jobs {
+            if j.id != job && job_of(jobs, j.id) != Some(j) {
+                viol(out, step, "C08", "K1-other-job-affected", format!("cancel of job {job} changed job {}", j.id));
+            }
+        }
+        // terminal tasks keep their outcome, the others are canceled
+        if let Some(nj) = job_of(jobs, job) {
+            for (id, s) in &pj.tasks {
+                let now = nj.tasks.iter().find(|x| x.0 == *id).map(|x| &x.1);
+                if s.is_terminal() {
+                    if now != Some(s) {
+                        viol(out, step, "C08", "K1-terminal-task-changed", format!("task {:?} was {s:?} and is {now:?} after the cancel", (job, id)));
+                    }
+                } else if now != Some(&TaskStateLite::Canceled) {
+                    viol(out, step, "C08", "K1-task-not-canceled", format!("task {:?} is {now:?} after the cancel", (job, id)));
+                }
+            }
+        }
+        // coverage: lifecycle state of each canceled task
+        if let Some(pc) = prev_core {
+            for t in &nonterminal {
+                if let Some(ts) = pc.tasks.iter().find(|x| conv::tid(x.id) == *t) {
+                    let mut name = state_name(&ts.state).to_string();
+                    if name == "retracting" && pc.redirects.iter().any(|r| conv::tid(r.0) == *t) {
+                        name = "retracting_redirected".into();
+                    }
+                    if let TaskStateSnapshot::Waiting { unfinished_deps } = ts.state {
+                        name = if unfinished_deps > 0 { "waiting_deps".into() } else { "ready".into() };
+                    }
+                    self.count(&format!("cancel.state.{name}"), 1);
+                }
+            }
+        }
+        // K4: nothing of the canceled tasks is left in the scheduler and reservations are released
+        for t in &nonterminal {
+            let tid = conv::task_id(*t);
+            let mut left: Vec<String> = Vec::new();
+            if core.tasks.iter().any(|x| x.id == tid) {
+                left.push("task map".into());
+            }
+            for w in &core.workers {
+                if let WorkerAssignmentSnapshot::Sn { assigned, prefilled, .. } = &w.assignment {
+                    if assigned.contains(&tid) {
+                        left.push(format!("assigned set of worker {}", w.id));
+                    }
+                    if prefilled.contains(&tid) {
+                        left.push(format!("prefilled set of worker {}", w.id));
+                    }
+                }
+                if let WorkerAssignmentSnapshot::Mn { task_id, .. } = &w.assignment {
+                    if *task_id == tid {
+                        left.push(format!("multi-node reservation of worker {}", w.id));
+                    }
+                }
+            }
+            for q in &core.queues {
+                if q.ready.iter().any(|(_, ts)| ts.contains(&tid)) {
+                    left.push(format!("ready queue {}", q.resource_rq_id));
+                }
+                if q.prefill.as_ref().map(|(_, ts)| ts.contains(&tid)).unwrap_or(false) {
+                    left.push(format!("prefill set {}", q.resource_rq_id));
+                }
+            }
+            if core.redirects.iter().any(|r| r.0 == tid) {
+                left.push("redirects".into());
+            }
+            if !left.is_empty() {
+                viol(out, step, "C08", "K4-canceled-task-left-behind", format!("{t:?} still in {left:?}"));
+            }
+        }
+        if let Some(pc) = prev_core {
+            let before = accounting_errors(pc);
+            let after = accounting_errors(core);
+            if before.is_empty() && !after.is_empty() {
+                viol(out, step, "C08", "K4-reservation-not-released", format!("after cancel of job {job}: {after:?}"));
+            }
+        }
+    }
+
+    /* ------------------------------ C14 ------------------------------------------------------ */
+
+    #[allow(clippy::too_many_arguments)]
+    fn check_max_fails(
+        &mut self,
+        journal: &[Ev],
+        prev_jobs: &[JobLite],
+        jobs: &[JobLite],
+        prev_core: Option<&CoreSnapshot>,
+        srv_cancel_sent: &BTreeSet<Tid>,
+        step: u32,
+        out: &mut Vec<Violation>,
+    ) {
+        // failures of this step per job
+        let mut failed_now: BTreeMap<Jid, u32> = BTreeMap::new();
+        for e in journal {
+            if let Ev::TaskFailed { t, .. } = e {
+                *failed_now.entry(t.0).or_insert(0) += 1;
+            }
+        }
+        // M1: aborts need a reason
+        for e in journal {
+            if let Ev::TasksAborted(ts) = e {
+                for t in ts {
+                    let limit = job_of(jobs, t.0).and_then(|j| j.max_fails).or_else(|| job_of(prev_jobs, t.0).and_then(|j| j.max_fails));
+                    let n_failed = self.job_failed.get(&t.0).copied().unwrap_or(0);
+                    let over = limit.map(|k| n_failed > k).unwrap_or(false);
+                    let dep_reason = self.has_bad_ancestor(*t);
+                    if !over && !dep_reason {
+                        viol(
+                            out,
+                            step,
+                            "C14",
+                            "M1-abort-within-limit",
+                            format!("task {t:?} aborted although job {} has {n_failed} failures (limit {limit:?}) and no failed/canceled dependency", t.0),
+                        );
+                        viol(
+                            out,
+                            step,
+                            "C03",
+                            "D3-unrelated-task-aborted",
+                            format!("task {t:?} aborted without a failed or canceled dependency (job failures {n_failed}, limit {limit:?})"),
+                        );
+                    }
+                    if dep_reason {
+                        self.count("abort.by_dependency", 1);
+                    } else if over {
+                        self.count("abort.by_limit", 1);
+                    }
+                }
+            }
+        }
+        // M2: when a failure brings the count over the limit, nothing of the job stays unfinished
+        for (j, _) in failed_now {
+            let Some(nj) = job_of(jobs, j) else { continue };
+            let Some(k) = nj.max_fails else { continue };
+            let n_failed = self.job_failed.get(&j).copied().unwrap_or(0);
+            if n_failed > k {
+                self.count("maxfails.crossings", 1);
+                self.aborted_by_limit_jobs.insert(j);
+                let left: Vec<u32> = nj.tasks.iter().filter(|(_, s)| !s.is_terminal()).map(|x| x.0).collect();
+                if !left.is_empty() {
+                    viol(
+                        out,
+                        step,
+                        "C14",
+                        "M2-tasks-survive-limit",
+                        format!("job {j} has {n_failed} failures (limit {k}) but tasks {left:?} are still unfinished"),
+                    );
+                }
+                // M3: workers holding them are told to cancel
+                if let (Some(pc), Some(pj)) = (prev_core, job_of(prev_jobs, j)) {
+                    for (id, s) in &pj.tasks {
+                        if s.is_terminal() {
+                            continue;
+                        }
+                        let t = (j, *id);
+                        let held = pc.tasks.iter().find(|x| conv::tid(x.id) == t).map(|x| {
+                            matches!(
+                                x.state,
+                                TaskStateSnapshot::Assigned { .. }
+                                    | TaskStateSnapshot::Running { .. }
+                                    | TaskStateSnapshot::Prefilled { .. }
+                                    | TaskStateSnapshot::Retracting { .. }
+                                    | TaskStateSnapshot::RunningMultiNode(_)
+                            )
+                        });
+                        let became_aborted = matches!(task_state(jobs, t), Some(TaskStateLite::Aborted));
+                        if held == Some(true) && became_aborted {
+                            self.count("maxfails.held_task_aborted", 1);
+                            // the worker may have been removed in this very step (loss): then no
+                            // message can be sent
+                            let worker_alive = pc.tasks.iter().find(|x| conv::tid(x.id) == t).map(|x| match &x.state {
+                                TaskStateSnapshot::Assigned { worker_id, .. }
+                                | TaskStateSnapshot::Running { worker_id, .. }
+                                | TaskStateSnapshot::Prefilled { worker_id }
+                                | TaskStateSnapshot::Retracting { worker_id } => Some(*worker_id),
+                                TaskStateSnapshot::RunningMultiNode(ws) => ws.first().copied(),
+                                _ => None,
+                            });
+                            let _ = worker_alive;
+                            if !srv_cancel_sent.contains(&t) && !journal.iter().any(|e| matches!(e, Ev::WorkerLost(..))) {
+                                viol(
+                                    out,
+                                    step,
+                                    "C14",
+                                    "M3-worker-not-told",
+                                    format!("task {t:?} aborted by max-fails while placed on a worker, but no CancelTasks was sent for it"),
+                                );
+                            }
+                        }
+                    }
+                }
+            }
+        }
+    }
+
+    fn has_late_ancestor(&self, t: Tid) -> bool {
+        let mut stack = vec![t];
+        let mut seen = BTreeSet::new();
+        while let Some(x) = stack.pop() {
+            if let Some(info) = self.tasks.get(&x) {
+                if info.late_dependent {
+                    return true;
+                }
+                for d in &info.deps {
+                    if seen.insert(*d) {
+                        stack.push(*d);
+                    }
+                }
+            }
+        }
+        false
+    }
+
+    fn has_bad_ancestor(&self, t: Tid) -> bool {
+        let mut stack = vec![t];
+        let mut seen = BTreeSet::new();
+        while let Some(x) = stack.pop() {
+            if let Some(info) = self.tasks.get(&x) {
+                for d in &info.deps {
+                    if self.bad_terminal.contains(d) {
+                        return true;
+                    }
+                    if seen.insert(*d) {
+                        stack.push(*d);
+                    }
+                }
+            }
+        }
+        false
+    }
+
+    /* ------------------------------ C05 ------------------------------------------------------ */
+
+    fn check_placements(
+        &mut self,
+        sim: &Sim,
+        action: &Option<Action>,
+        prev_core: Option<&CoreSnapshot>,
+        core: &CoreSnapshot,
+        step: u32,
+        out: &mut Vec<Violation>,
+    ) {
+        // P1 + P4 (consistency and resource sums)
+        let prefilled_start_from: Option<Wid> = match (action, prev_core) {
+            (Some(Action::ToServer { w }), Some(pc)) => {
+                // did this message make the server learn that the worker started a task on its
+                // own (from its prefilled backlog)?
+                let started_from_backlog = core.tasks.iter().any(|t| {
+                    matches!(&t.state, TaskStateSnapshot::Running { worker_id, .. } if worker_id.as_num() == *w)
+                        && pc.tasks.iter().any(|x| {
+                            x.id == t.id
+                                && matches!(x.state, TaskStateSnapshot::Prefilled { .. } | TaskStateSnapshot::Retracting { .. })
+                        })
+                });
+                started_from_backlog.then_some(*w)
+            }
+            _ => None,
+        };
+        let before_ok = prev_core.map(|pc| !accounting_errors(pc).iter().any(|e| e.starts_with("overbooked"))).unwrap_or(true);
+        for e in accounting_errors(core) {
+            if e.starts_with("overbooked") {
+                match prefilled_start_from {
+                    Some(w) if e.contains(&format!("worker {w} ")) => {
+                        viol(out, step, "C05", "P1-overbooked-by-backlog-start-after-release", e)
+                    }
+                    _ if !before_ok => {
+                        // the overbooking already exists; it was reported when it arose
+                    }
+                    _ => viol(out, step, "C05", "P1-overbooked", e),
+                }
+            } else if e.starts_with("incapable") {
+                viol(out, step, "C05", "P1-placed-where-it-cannot-run", e);
+            }
+        }
+        for e in consistency_errors(core) {
+            viol(out, step, "C05", "P4-inconsistent-structures", e);
+        }
+        // P2 time: tasks placed by this scheduling round
+        if let (Some(Action::Sched), Some(pc)) = (action, prev_core) {
+            let vnow = sim.vnow_s();
+            for t in &core.tasks {
+                let newly = match &t.state {
+                    TaskStateSnapshot::Assigned { worker_id, rv_id } => {
+                        let was = pc.tasks.iter().find(|x| x.id == t.id).map(|x| &x.state);
+                        if was != Some(&t.state) {
+                            Some((vec![*worker_id], *rv_id))
+                        } else {
+                            None
+                        }
+                    }
+                    TaskStateSnapshot::RunningMultiNode(ws) => {
+                        let was = pc.tasks.iter().find(|x| x.id == t.id).map(|x| &x.state);
+                        if !matches!(was, Some(TaskStateSnapshot::RunningMultiNode(_))) {
+                            Some((ws.clone(), 0.into()))
+                        } else {
+                            None
+                        }
+                    }
+                    _ => None,
+                };
+                let Some((ws, rv)) = newly else { continue };
+                self.count("placement.checked", 1);
+                let rq = core.requests.get(t.resource_rq_id.into()).get(rv);
+                let min_time = rq.min_time().as_secs();
+                if min_time > 0 {
+                    self.count("placement.with_time_request", 1);
+                }
+                for w in &ws {
+                    if let Some(h) = sim.workers.get(&w.as_num()) {
+                        if let Some(limit) = h.spec.time_limit_s {
+                            self.count("placement.on_limited_worker", 1);
+                            if vnow + min_time > h.connected_at_s + limit {
+                                viol(
+                                    out,
+                                    step,
+                                    "C05",
+                                    "P2-not-enough-lifetime",
+                                    format!(
+                                        "task {:?} needs {min_time}s but worker {w} placed at {vnow}s ends at {}s",
+                                        conv::tid(t.id),
+                                        h.connected_at_s + limit
+                                    ),
+                                );
+                            }
+                        }
+                    }
+                }
+                if rq.is_multi_node() {
+                    self.count("placement.multinode", 1);
+                    let n = rq.n_nodes() as usize;
+                    let distinct: BTreeSet<_> = ws.iter().collect();
+                    let groups: BTreeSet<&String> = ws
+                        .iter()
+                        .filter_map(|w| core.workers.iter().find(|x| x.id == *w).map(|x| &x.group))
+                        .collect();
+                    if ws.len() != n || distinct.len() != n || groups.len() != 1 {
+                        viol(
+                            out,
+                            step,
+                            "C05",
+                            "P3-multinode-placement",
+                            format!("task {:?} asks for {n} nodes, got workers {ws:?} of groups {groups:?}", conv::tid(t.id)),
+                        );
+                    }
+                    self.mn_sets.insert(conv::tid(t.id), ws.iter().map(|w| w.as_num()).collect());
+                }
+            }
+        }
+        // P3: while held, every member is reserved for that task only; the set only shrinks
+        for t in &core.tasks {
+            if let TaskStateSnapshot::RunningMultiNode(ws) = &t.state {
+                for w in ws {
+                    match core.workers.iter().find(|x| x.id == *w).map(|x| &x.assignment) {
+                        Some(WorkerAssignmentSnapshot::Mn { task_id, .. }) if *task_id == t.id => {}
+                        other => viol(
+                            out,
+                            step,
+                            "C05",
+                            "P3-multinode-member-not-reserved",
+                            format!("task {:?} holds worker {w} whose assignment is {other:?}", conv::tid(t.id)),
+                        ),
+                    }
+                }
+                if let Some(orig) = self.mn_sets.get(&conv::tid(t.id)) {
+                    if ws.iter().any(|w| !orig.contains(&w.as_num())) {
+                        viol(out, step, "C05", "P3-multinode-set-grew", format!("task {:?}: workers {ws:?} not within {orig:?}", conv::tid(t.id)));
+                    }
+                }
+            }
+        }
+    }
+
+    /* ------------------------------ restart -------------------------------------------------- */
+
+    fn on_restart(&mut self, sim: &Sim, step: u32, out: &mut Vec<Violation>) {
+        self.restarted = true;
+        self.count("restart", 1);
+        // what the kept journal prefix says
+        let kept: Vec<Ev> = sim.journal.iter().map(|e| conv::ev(&e.payload)).collect();
+        self.kept_finished.clear();
+        self.max_journal_instance.clear();
+        let mut running_on: BTreeMap<Tid, Vec<Wid>> = BTreeMap::new();
+        let mut crash: BTreeMap<Tid, (u32, u32)> = BTreeMap::new(); // (strict, lenient) counts
+        for e in &kept {
+            match e {
+                Ev::TaskStarted { t, instance, workers, .. } => {
+                    let m = self.max_journal_instance.entry(*t).or_insert(0);
+                    *m = (*m).max(*instance);
+                    running_on.insert(*t, workers.clone());
+                }
+                Ev::TaskFinished(t) => {
+                    self.kept_finished.insert(*t);
+                    running_on.remove(t);
+                }
+                Ev::TaskFailed { t, .. } => {
+                    running_on.remove(t);
+                }
+                Ev::TasksCanceled(ts) | Ev::TasksAborted(ts) => {
+                    for t in ts {
+                        running_on.remove(t);
+                    }
+                }
+                Ev::WorkerLost(w, reason) => {
+                    let hit: Vec<Tid> = running_on
+                        .iter()
+                        .filter(|(_, ws)| ws.contains(w))
+                        .map(|(t, _)| *t)
+                        .collect();
+                    for t in hit {
+                        let root = running_on[&t].first() == Some(w);
+                        if reason.is_failure() {
+                            let c = crash.entry(t).or_insert((0, 0));
+                            if root {
+                                c.0 += 1;
+                            }
+                            c.1 += 1;
+                        }
+                        if root {
+                            running_on.remove(&t);
+                        }
+                    }
+                }
+                _ => {}
+            }
+        }
+        // C07-L5: crash counters handed to the new core
+        for rt in &sim.restored_submits {
+            let (strict, lenient) = crash.get(&rt.t).copied().unwrap_or((0, 0));
+            self.count("restart.restored_tasks", 1);
+            if strict > 0 {
+                self.count("restart.restored_tasks_with_crashes", 1);
+            }
+            if rt.crash_counter != strict && rt.crash_counter != lenient {
+                viol(
+                    out,
+                    step,
+                    "C07",
+                    "L5-crash-count-lost-in-restart",
+                    format!("task {:?}: journal holds {strict} failure-type losses while running, restored crash counter is {}", rt.t, rt.crash_counter),
+                );
+            }
+            self.ref_crash.insert(rt.t, rt.crash_counter);
+            if let Some(m) = self.max_journal_instance.get(&rt.t) {
+                if rt.instance <= *m {
+                    viol(
+                        out,
+                        step,
+                        "C06",
+                        "X3-instance-not-increasing-across-restart",
+                        format!("task {:?}: journal holds instance {m}, restored with instance {}", rt.t, rt.instance),
+                    );
+                }
+            }
+        }
+        // reset per-incarnation tracking
+        self.auto.clear();
+        self.hq_running.clear();
+        self.last_started_instance.clear();
+        self.credit.clear();
+        self.canceled_on.clear();
+        self.retract_confirmed.clear();
+        self.exec_instances.clear();
+        self.mn_sets.clear();
+        self.journal_seq.clear();
+        self.live_seq.clear();
+        // tasks finished/failed according to the kept prefix
+        self.finished_tasks = self.kept_finished.clone();
     }
 
     pub fn drain_started(&mut self, _sim: &Sim) {}
 
-    pub fn at_end(&mut self, _sim: &Sim, _quiescent: bool, _out: &mut Vec<Violation>) {}
+    /* ------------------------------ end of run ----------------------------------------------- */
+
+    pub fn at_end(&mut self, sim: &Sim, quiescent: bool, out: &mut Vec<Violation>) {
+        let step = self.step;
+        let jobs = sim.jobs();
+        // journal and live listeners see the same announcements
+        if self.journal_seq != self.live_seq {
+            let n = self.journal_seq.iter().zip(self.live_seq.iter()).take_while(|(a, b)| a == b).count();
+            viol(
+                out,
+                step,
+                "C01",
+                "R0-journal-and-clients-differ",
+                format!(
+                    "announcement #{n}: journal {:?} vs clients {:?}",
+                    self.journal_seq.get(n),
+                    self.live_seq.get(n)
+                ),
+            );
+        }
+        // C03-D2: dependents of failed/canceled tasks never start and end aborted/canceled
+        let all: Vec<Tid> = self.tasks.keys().copied().collect();
+        for t in &all {
+            if self.has_bad_ancestor(*t) {
+                self.count("dep.dependents_of_bad", 1);
+                let late = self.tasks.get(t).map(|i| i.late_dependent).unwrap_or(false) || self.has_late_ancestor(*t);
+                if late {
+                    // judged at the start (rule D2-late-dependent-of-failed-task-runs)
+                    continue;
+                }
+                if self.exec_started.contains(t) || self.ever_started_ev.contains(t) {
+                    viol(
+                        out,
+                        step,
+                        "C03",
+                        "D2-dependent-of-failed-task-started",
+                        format!("task {t:?} depends (transitively) on a failed/canceled task but was started"),
+                    );
+                }
+                if quiescent {
+                    if let Some(s) = task_state(&jobs, *t) {
+                        if !matches!(s, TaskStateLite::Aborted | TaskStateLite::Canceled) {
+                            viol(
+                                out,
+                                step,
+                                "C03",
+                                "D2-dependent-of-failed-task-not-aborted",
+                                format!("task {t:?} depends (transitively) on a failed/canceled task but ended {s:?}"),
+                            );
+                        }
+                    }
+                }
+            }
+        }
+        if !quiescent {
+            return;
+        }
+        self.count("quiescent", 1);
+        // C02-S2/S3: nothing is stuck
+        for j in &jobs {
+            let stuck: Vec<u32> = j.tasks.iter().filter(|(_, s)| !s.is_terminal()).map(|x| x.0).collect();
+            if !stuck.is_empty() {
+                let core = sim.core_snapshot();
+                let detail: Vec<String> = stuck
+                    .iter()
+                    .take(4)
+                    .map(|id| {
+                        let st = core.tasks.iter().find(|x| conv::tid(x.id) == (j.id, *id)).map(|x| format!("{:?}", x.state));
+                        format!("{id}:{st:?}")
+                    })
+                    .collect();
+                viol(
+                    out,
+                    step,
+                    "C02",
+                    "S2-task-stuck",
+                    format!("at rest with capable workers connected, job {} still has unfinished tasks {detail:?} ({} in total)", j.id, stuck.len()),
+                );
+            } else {
+                self.count("job.all_terminal", 1);
+            }
+            // exactly one terminal announcement per task
+            if !self.restarted {
+                for (id, _) in &j.tasks {
+                    if !matches!(self.auto.get(&(j.id, *id)), Some(Auto::Terminal(_))) {
+                        viol(out, step, "C01", "R1-no-terminal-outcome", format!("task {:?} has no terminal announcement at the end", (j.id, id)));
+                    }
+                }
+            }
+        }
+        // C13-B4: submit-and-wait clients got their completion report
+        let inc = sim.shared.borrow().incarnation;
+        for (i, c) in sim.clients.iter().enumerate() {
+            if c.incarnation != inc {
+                continue;
+            }
+            if c.state == ClientState::Streaming {
+                if let Some(j) = c.stream_job {
+                    self.count("stream.clients", 1);
+                    let completed = self.job_completed_events.get(&j).copied().unwrap_or(0) > 0;
+                    if completed && !c.stream_completed {
+                        viol(
+                            out,
+                            step,
+                            "C13",
+                            "B4-waiting-client-never-told",
+                            format!("client {i} submitted job {j} with wait; the job completed but the client never received its completion report"),
+                        );
+                    }
+                    if completed && c.stream_completed {
+                        self.count("stream.completed_received", 1);
+                    }
+                }
+            }
+        }
+    }
+}
+
+pub fn state_name(s: &TaskStateSnapshot) -> &'static str {
+    match s {
+        TaskStateSnapshot::Waiting { .. } => "waiting",
+        TaskStateSnapshot::Assigned { .. } => "assigned",
+        TaskStateSnapshot::Prefilled { .. } => "prefilled",
+        TaskStateSnapshot::Retracting { .. } => "retracting",
+        TaskStateSnapshot::Running { .. } => "running",
+        TaskStateSnapshot::RunningMultiNode(_) => "running_mn",
+        TaskStateSnapshot::Finished => "finished",
+    }
+}
+
+/// The oracle's own arithmetic of what is placed on each single-node worker.
+/// Returns messages starting with "overbooked"/"incapable" (C05-P1/P2) or "accounting" (the
+/// server's own free-resource bookkeeping disagrees with the sum).
+pub fn accounting_errors(core: &CoreSnapshot) -> Vec<String> {
+    let mut errs = Vec::new();
+    for w in &core.workers {
+        let WorkerAssignmentSnapshot::Sn { free, .. } = &w.assignment else {
+            continue;
+        };
+        let n = w.resources.len();
+        let mut used = vec![0u64; n];
+        let mut all_holders = vec![0u32; n];
+        let mut holders = vec![0u32; n];
+        for t in &core.tasks {
+            let placed_rv = match &t.state {
+                TaskStateSnapshot::Assigned { worker_id, rv_id } | TaskStateSnapshot::Running { worker_id, rv_id } if *worker_id == w.id => Some(*rv_id),
+                TaskStateSnapshot::Retracting { .. } => core
+                    .redirects
+                    .iter()
+                    .find(|r| r.0 == t.id && r.1 == w.id)
+                    .map(|r| r.2),
+                _ => None,
+            };
+            let Some(rv) = placed_rv else { continue };
+            let rq = core.requests.get(t.resource_rq_id.into()).get(rv);
+            for e in rq.entries() {
+                let r = e.resource_id.as_usize();
+                let have = w.resources.get(r).copied().unwrap_or(0);
+                match e.request.amount_or_none_if_all() {
+                    Some(a) => {
+                        if r >= n || a.total_fractions() > have {
+                            errs.push(format!(
+                                "incapable: task {:?} asks {} of resource {r} on worker {} which has {have}",
+                                conv::tid(t.id),
+                                a.total_fractions(),
+                                w.id
+                            ));
+                        }
+                        if r < n {
+                            used[r] += a.total_fractions();
+                            holders[r] += 1;
+                        }
+                    }
+                    None => {
+                        if r >= n || have == 0 {
+                            errs.push(format!("incapable: task {:?} asks all of resource {r} on worker {} which has none", conv::tid(t.id), w.id));
+                        }
+                        if r < n {
+                            used[r] += have;
+                            all_holders[r] += 1;
+                            holders[r] += 1;
+                        }
+                    }
+                }
+            }
+        }
+        for r in 0..n {
+            if used[r] > w.resources[r] || (all_holders[r] > 0 && holders[r] > 1) {
+                errs.push(format!(
+                    "overbooked: worker {} resource {r}: placed tasks ask {} ({} holders, {} of them `all`) of {}",
+                    w.id, used[r], holders[r], all_holders[r], w.resources[r]
+                ));
+            } else if free.get(r).copied().unwrap_or(0) != w.resources[r] - used[r] {
+                errs.push(format!(
+                    "accounting: worker {} resource {r}: server counts {} free, placed tasks leave {}",
+                    w.id,
+                    free.get(r).copied().unwrap_or(0),
+                    w.resources[r] - used[r]
+                ));
+            }
+        }
+    }
+    errs
+}
+
+/// Independent re-statement of the cross-structure invariants (`Core::sanity_check` exists only
+/// under cfg(test)).
+pub fn consistency_errors(core: &CoreSnapshot) -> Vec<String> {
+    let mut errs = Vec::new();
+    let task = |id: tako::TaskId| core.tasks.iter().find(|t| t.id == id);
+    let worker = |id: tako::WorkerId| core.workers.iter().find(|w| w.id == id);
+    for w in &core.workers {
+        match &w.assignment {
+            WorkerAssignmentSnapshot::Sn { assigned, prefilled, .. } => {
+                for t in assigned {
+                    match task(*t).map(|x| &x.state) {
+                        Some(TaskStateSnapshot::Assigned { worker_id, .. }) | Some(TaskStateSnapshot::Running { worker_id, .. }) if *worker_id == w.id => {}
+                        Some(TaskStateSnapshot::Retracting { .. }) if core.redirects.iter().any(|r| r.0 == *t && r.1 == w.id) => {}
+                        other => errs.push(format!("worker {} lists {:?} as assigned but the task is {other:?}", w.id, conv::tid(*t))),
+                    }
+                }
+                for t in prefilled {
+                    match task(*t).map(|x| &x.state) {
+                        Some(TaskStateSnapshot::Prefilled { worker_id }) if *worker_id == w.id => {}
+                        other => errs.push(format!("worker {} lists {:?} as prefilled but the task is {other:?}", w.id, conv::tid(*t))),
+                    }
+                }
+            }
+            WorkerAssignmentSnapshot::Mn { task_id, .. } => match task(*task_id).map(|x| &x.state) {
+                Some(TaskStateSnapshot::RunningMultiNode(ws)) if ws.contains(&w.id) => {}
+                other => errs.push(format!("worker {} is reserved for {:?} which is {other:?}", w.id, conv::tid(*task_id))),
+            },
+        }
+    }
+    for t in &core.tasks {
+        let id = conv::tid(t.id);
+        let in_ready = core
+            .queues
+            .iter()
+            .any(|q| q.ready.iter().any(|(_, ts)| ts.contains(&t.id)));
+        let in_prefill = core
+            .queues
+            .iter()
+            .any(|q| q.prefill.as_ref().map(|(_, ts)| ts.contains(&t.id)).unwrap_or(false));
+        match &t.state {
+            TaskStateSnapshot::Waiting { unfinished_deps } => {
+                let n = t
+                    .deps
+                    .iter()
+                    .filter(|d| task(**d).map(|x| x.state != TaskStateSnapshot::Finished).unwrap_or(false))
+                    .count() as u32;
+                if n != *unfinished_deps {
+                    errs.push(format!("task {id:?} counts {unfinished_deps} unfinished dependencies but {n} of its dependencies are unfinished"));
+                }
+                if (*unfinished_deps == 0) != in_ready {
+                    errs.push(format!("task {id:?} waits for {unfinished_deps} dependencies, in ready queue: {in_ready}"));
+                }
+                if in_prefill {
+                    errs.push(format!("waiting task {id:?} is in a prefill set"));
+                }
+            }
+            TaskStateSnapshot::Assigned { worker_id, .. } | TaskStateSnapshot::Running { worker_id, .. } => {
+                match worker(*worker_id).map(|w| &w.assignment) {
+                    Some(WorkerAssignmentSnapshot::Sn { assigned, .. }) if assigned.contains(&t.id) => {}
+                    other => errs.push(format!("task {id:?} is placed on worker {worker_id} whose assignment is {other:?}")),
+                }
+                if in_ready || in_prefill {
+                    errs.push(format!("placed task {id:?} is still in a queue (ready {in_ready}, prefill {in_prefill})"));
+                }
+            }
+            TaskStateSnapshot::Prefilled { worker_id } => {
+                match worker(*worker_id).map(|w| &w.assignment) {
+                    Some(WorkerAssignmentSnapshot::Sn { prefilled, .. }) if prefilled.contains(&t.id) => {}
+                    other => errs.push(format!("task {id:?} is prefilled on worker {worker_id} whose assignment is {other:?}")),
+                }
+                if !in_prefill {
+                    errs.push(format!("prefilled task {id:?} is not in the prefill set of its queue"));
+                }
+            }
+            TaskStateSnapshot::Retracting { worker_id } => {
+                if worker(*worker_id).is_none() {
+                    errs.push(format!("task {id:?} is being retracted from unknown worker {worker_id}"));
+                }
+                let redirected = core.redirects.iter().any(|r| r.0 == t.id);
+                if redirected == in_ready {
+                    errs.push(format!("retracting task {id:?}: redirect {redirected}, in ready queue {in_ready}"));
+                }
+            }
+            TaskStateSnapshot::RunningMultiNode(ws) => {
+                if ws.is_empty() {
+                    errs.push(format!("multi-node task {id:?} holds no worker"));
+                }
+                if in_ready || in_prefill {
+                    errs.push(format!("running multi-node task {id:?} is still in a queue"));
+                }
+            }
+            TaskStateSnapshot::Finished => {}
+        }
+    }
+    for q in &core.queues {
+        for (_, ts) in &q.ready {
+            for t in ts {
+                if task(*t).is_none() {
+                    errs.push(format!("ready queue {} holds unknown task {:?}", q.resource_rq_id, conv::tid(*t)));
+                }
+            }
+        }
+        if let Some((_, ts)) = &q.prefill {
+            for t in ts {
+                if task(*t).is_none() {
+                    errs.push(format!("prefill set {} holds unknown task {:?}", q.resource_rq_id, conv::tid(*t)));
+                }
+            }
+        }
+    }
+    for (t, w, _) in &core.redirects {
+        match task(*t).map(|x| &x.state) {
+            Some(TaskStateSnapshot::Retracting { .. }) => {}
+            other => errs.push(format!("redirect of {:?} to worker {w} but the task is {other:?}", conv::tid(*t))),
+        }
+        if worker(*w).is_none() {
+            errs.push(format!("redirect of {:?} to unknown worker {w}", conv::tid(*t)));
+        }
+    }
+    errs
 }
